@@ -1,5 +1,6 @@
 import CryoCat.Drv.Proto
 import CryoCat.Model.C12
+import CryoCat.Model.C12_Dft
 namespace CryoCat.Drv.C12
 open Lean CryoCat CryoCat.C12
 
@@ -39,10 +40,58 @@ def radiusOf (j : Json) (d : Dims) (pre : String) : Option Int :=
   if bad then none else
   getFilterRadius pyRound (Float.ofNat (edgeOf d)) (getInt? j (pre ++ "fp")) res px
 
-def respond (d : Dims) (radii : List Int) (mask : Grid Float) : Json :=
+/-! ### the soft-edge margin bounds of `Props/C12.soft_margin_checked`, evaluated on the executed kernel -/
+
+/-- squared integer frequency radius of every DFT bin (row-major), as `Props/C12.freqRadius2` -/
+def radius2Of (d : Dims) (j k l : Int) : Int :=
+  freq d.nx j * freq d.nx j + freq d.ny k * freq d.ny k + freq d.nz l * freq d.nz l
+
+def flagsOf (d : Dims) (f : Int → Bool) : Json :=
+  Json.arr ((tabulate d (fun j k l => f (radius2Of d j k l))).flatMap (fun a => a.flatMap (fun b => b.map (fun (v : Bool) => ((if v then 1 else 0 : Nat) : Json)))))
+
+/-- `tail_in = tail3 ker m_in`, `tail_out = tail3 ker m_out` and, per bin, whether the hypotheses of
+`soft_gain_inside` / `soft_gain_outside` hold for that bin's squared radius -/
+def margins (j : Json) (d : Dims) (r : Int) (sigma : Float) : List (String × Json) :=
+  match kernelOf sigma, getInt? j "m_in", getInt? j "m_out" with
+  | some ker, some mi, some mo =>
+    [("tail_in", (bitsOfFloat (tail3 ker mi) : Json)), ("tail_out", (bitsOfFloat (tail3 ker mo) : Json)),
+     ("tail_reach", (bitsOfFloat (tail3 ker (3 * ((trunc sigma : Nat) : Int) * ((trunc sigma : Nat) : Int))) : Json)),
+     ("inside", flagsOf d (fun A => fitsInside A mi r)), ("outside", flagsOf d (fun A => fitsOutside A mo r))]
+  | _, _, _ => []
+
+/-! ### the whole filter: `np.real(ifftn(fftn(x) * ifftshift(mask)))` executed on the model's DFT -/
+
+def twoPi : Float := 6.283185307179586
+
+/-- twiddle table `ω^m = exp(-2πi·m/n)` -/
+def twF (n : Nat) : Nat → Cx Float :=
+  let tab : Array (Cx Float) := Array.ofFn (n := n) (fun m =>
+    let a := twoPi * Float.ofNat m.val / Float.ofNat n
+    (⟨Float.cos a, -(Float.sin a)⟩ : Cx Float))
+  fun m => tab.getD m 0
+
+def inputGrid (j : Json) (d : Dims) : Option (Grid (Cx Float)) :=
+  match getArr? j "x" with
+  | some a =>
+    if a.size != d.nx * d.ny * d.nz then none else
+    some (tabulate d (fun x y z =>
+      match (a.getD ((x.toNat * d.ny + y.toNat) * d.nz + z.toNat) Json.null).getNat?.toOption with
+      | some b => (⟨floatOfBits b, 0⟩ : Cx Float)
+      | none => (⟨0.0 / 0.0, 0⟩ : Cx Float)))
+  | none => none
+
+/-- `filt` with the model's `dft3 / idft3` and `np.real`, gain read from the materialised mask -/
+def runFilter (d : Dims) (mask : Grid Float) (x : Grid (Cx Float)) : Json :=
   let g := gainGrid d mask
-  Json.mkObj [("radius", Json.arr (radii.map (fun (r : Int) => (r : Json))).toArray),
-              ("gain", flat g), ("eff", flat (effGrid d g))]
+  let tx := twF d.nx; let ty := twF d.ny; let tz := twF d.nz
+  let inv (n : Nat) : Cx Float := ⟨1.0 / Float.ofNat n, 0⟩
+  let out := filtGrid d tx ty tz (inv d.nx) (inv d.ny) (inv d.nz) Cx.real (atIdx g.get) x
+  Json.mkObj [("out", Json.arr (out.flatMap (fun a => a.flatMap (fun b => b.map (fun (v : Cx Float) => (bitsOfFloat v.re : Json))))))]
+
+def respond (d : Dims) (radii : List Int) (mask : Grid Float) (extra : List (String × Json) := []) : Json :=
+  let g := gainGrid d mask
+  Json.mkObj ([("radius", Json.arr (radii.map (fun (r : Int) => (r : Json))).toArray),
+              ("gain", flat g), ("eff", flat (effGrid d g))] ++ extra)
 
 def handle (j : Json) : Json :=
   match getStr? j "op" with
@@ -68,12 +117,12 @@ def handle (j : Json) : Json :=
     match parseDims j, getStr? j "kind" with
     | some d, some "low" =>
       match radiusOf j d "", optFloat j "sigma" with
-      | some r, some s => respond d [r] (lowMaskGrid (kernelOf s) d r)
+      | some r, some s => respond d [r] (lowMaskGrid (kernelOf s) d r) (margins j d r s)
       | none, some _ => err "reject:no-cutoff"
       | _, _ => err "bad-args"
     | some d, some "high" =>
       match radiusOf j d "", optFloat j "sigma" with
-      | some r, some s => respond d [r] (highMaskGrid (kernelOf s) d r)
+      | some r, some s => respond d [r] (highMaskGrid (kernelOf s) d r) (margins j d r s)
       | none, some _ => err "reject:no-cutoff"
       | _, _ => err "bad-args"
     | some d, some "band" =>
@@ -83,6 +132,29 @@ def handle (j : Json) : Json :=
       | _, none, some _, some _ => err "reject:no-cutoff"
       | _, _, _, _ => err "bad-args"
     | _, _ => err "bad-args"
+  | some "filter" =>
+    match parseDims j with
+    | none => err "bad-args"
+    | some d =>
+      if d.nx > 8 ∨ d.ny > 8 ∨ d.nz > 8 then err "reject:box-too-large" else
+      match inputGrid j d, getStr? j "kind" with
+      | some x, some "low" =>
+        match radiusOf j d "", optFloat j "sigma" with
+        | some r, some s => runFilter d (lowMaskGrid (kernelOf s) d r) x
+        | none, some _ => err "reject:no-cutoff"
+        | _, _ => err "bad-args"
+      | some x, some "high" =>
+        match radiusOf j d "", optFloat j "sigma" with
+        | some r, some s => runFilter d (highMaskGrid (kernelOf s) d r) x
+        | none, some _ => err "reject:no-cutoff"
+        | _, _ => err "bad-args"
+      | some x, some "band" =>
+        match radiusOf j d "lp_", radiusOf j d "hp_", optFloat j "lp_sigma", optFloat j "hp_sigma" with
+        | some lp, some hp, some sl, some sh => runFilter d (bandMaskGrid (kernelOf sl) (kernelOf sh) d lp hp) x
+        | none, _, some _, some _ => err "reject:no-cutoff"
+        | _, none, some _, some _ => err "reject:no-cutoff"
+        | _, _, _, _ => err "bad-args"
+      | _, _ => err "bad-args"
   | _ => err "bad-op"
 
 end CryoCat.Drv.C12
